@@ -455,6 +455,9 @@ YR_API int yr_scanner_define_string_variable(
     const char* identifier,
     const char* value)
 {
+  if (identifier == NULL || value == NULL)
+    return ERROR_INVALID_ARGUMENT;
+
   YR_OBJECT* obj = (YR_OBJECT*) yr_hash_table_lookup(
       scanner->objects_table, identifier, NULL);
 
